@@ -27,6 +27,8 @@ type C14Case struct {
 	Fault    string `json:"fault,omitempty"`
 	FaultCtr int    `json:"fault_ctr,omitempty"`
 	FaultPos int    `json:"fault_pos,omitempty"`
+	// ErrKind is the class of the injected error of list / open / read faults (fakedocker.ErrKinds).
+	ErrKind string `json:"err_kind,omitempty"`
 	// Orders are the completion orders of the waves of concurrent opens.
 	Orders [][]int `json:"orders,omitempty"`
 	Frag   []int   `json:"frag,omitempty"`
@@ -101,7 +103,8 @@ func c14QueryBase(c C14Case) (q string, waves int, mustFail bool) {
 }
 
 func c14Check(c C14Case) (r evid.Result) {
-	d := &fakedocker.Daemon{}
+	d := &fakedocker.Daemon{ErrKind: c.ErrKind}
+	r.Class(c.ErrKind != "" && (c.Fault == "list" || c.Fault == "open" || c.Fault == "read"), "error-class="+c.ErrKind)
 	selected := c.Selected
 	if selected > len(c.Ctrs) {
 		selected = len(c.Ctrs)
@@ -191,7 +194,7 @@ func c14Check(c C14Case) (r evid.Result) {
 	r.Class(rep.Opened >= 2, "opened>=2")
 	metric := c.Shape != "log" && c.Shape != "log-limit" && c.Shape != "bad-template" && c.Shape != "bad-regex-stage"
 	r.NonTrivial = (faultInSelection && selected >= 2 && c.Fault != "list") || (metric && rep.Opened >= 2)
-	what := fmt.Sprintf("query %s over %d containers (%d selected), fault %s in container %d at %d", query, len(c.Ctrs), selected, faultApplied, c.FaultCtr, c.FaultPos)
+	what := fmt.Sprintf("query %s over %d containers (%d selected), fault %s (error class %q) in container %d at %d", query, len(c.Ctrs), selected, faultApplied, c.ErrKind, c.FaultCtr, c.FaultPos)
 
 	// (c) every opened reader is closed, none is read after Eval returned.
 	if rep.Opened != rep.Closed {
@@ -253,6 +256,16 @@ func c14Gen(t *rapid.T) C14Case {
 	}
 	c.Fault = rapid.SampledFrom([]string{"", "", "list", "open", "open", "read", "read", "truncate-body", "badts", "nosep", "syserr"}).Draw(t, "fault")
 	c.FaultCtr = rapid.IntRange(0, n-1).Draw(t, "fault-ctr")
+	if rapid.Bool().Draw(t, "classified-error") {
+		// What fails is not always a plain error: a 404 of the daemon, a cancelled context, a
+		// connection that went away. None of them is "nothing to read".
+		c.ErrKind = rapid.SampledFrom(fakedocker.ErrKinds).Draw(t, "err-kind")
+		// A reader that ends with io.ErrUnexpectedEOF says "the stream was cut": inside a frame
+		// header that is a clean end (C03, as docker-cli does), so it is not a fault of its own.
+		if c.Fault == "read" && c.ErrKind == "unexpected-eof" {
+			c.ErrKind = "closed-pipe"
+		}
+	}
 	c.FaultPos = rapid.IntRange(0, 1<<16).Draw(t, "fault-pos")
 	for w := 0; w < 2; w++ {
 		c.Orders = append(c.Orders, rapid.Permutation(identity(n)).Draw(t, "order"))
